@@ -44,19 +44,44 @@ theorem c09_history (cfg : Cfg) (susp : Bool) (probes : List Str) (nsvc : Nat) (
     ok (modelTraceS cfg susp probes nsvc [] hist) = true :=
   history_from cfg susp probes nsvc hist hw [] List.nodup_nil
 
+/-- the driver's diagnostic walk is the judge: a trace is accepted iff no step is reported -/
+theorem ok_iff_no_first_bad (exp : PyDict Str Nat) (l : List Step) (i : Nat) :
+    okFrom exp l = (firstBadFrom exp l i).isNone := by
+  induction l generalizing exp i with
+  | nil => rfl
+  | cons s r ih =>
+    simp only [okFrom, firstBadFrom]
+    by_cases h : stepOk exp s = true
+    · simp only [h, Bool.true_and, if_true]; exact ih _ _
+    · simp [h]
+
 /-- in the non-suspending model the fallback SUBSCRIBE immediately follows its refused renewal, and an
     unreachable renewal is never followed by a fresh SUBSCRIBE for its service -/
 theorem fallback_adjacent_sequential (cfg : Cfg) (rt : Routing) (c : Call) (rs : List Reaction)
     (hn : (keys rt).Nodup) (hw : callWF c) : fallbackAdjacent (runCall cfg rt c rs).exch = true :=
   (runCall_ok cfg rt c rs hn hw).adjacent
 
-/-- **The registry mirrors the publisher**: after one more call whose exchanges are inside the property's
-    domain, the routing table is the publisher-side fold of that call's exchanges. -/
-theorem registry_mirrors (cfg : Cfg) (rt : Routing) (c : Call) (rs : List Reaction)
-    (hn : (keys rt).Nodup) (hw : callWF c)
-    (hs : (runCall cfg rt c rs).exch.all exchInScope = true) :
-    (runCall cfg rt c rs).rt = (runCall cfg rt c rs).exch.foldl foldExch rt :=
-  ((runCall_ok cfg rt c rs hn hw).mirror hs).symm
+/-- **The registry mirrors the publisher**: after one more call — whatever the publisher answered, an
+    unparsable granted TIMEOUT included — the routing table is the publisher-side fold of that call's
+    exchanges (granted ∖ unsubscribed ∖ lost). -/
+theorem registry_mirrors (cfg : Cfg) (susp : Bool) (rt : Routing) (c : Call) (rs : List Reaction)
+    (hn : (keys rt).Nodup) (hw : callWF c) :
+    (runCallS cfg susp rt c rs).rt = (runCallS cfg susp rt c rs).exch.foldl foldExch rt :=
+  (judgeFacts_runCallS cfg susp rt c rs hn hw).mirror.symm
+
+/-- the conversion of the granted TIMEOUT is guarded in both `async_subscribe` and `_async_do_resubscribe`
+    (read from the source): an unparsable value cannot make a granted subscription half-registered -/
+theorem timeout_guards_pinned :
+    Gen.C09Gena.subscribeTimeoutGuarded = true ∧ Gen.C09Gena.renewTimeoutGuarded = true := guards_pinned
+
+/-- **A granted subscription is registered whatever its TIMEOUT header says**: a 200 carrying SID `s` routes
+    `s` to the service and the call returns `s` -/
+theorem garbage_timeout_still_routed (cfg : Cfg) (rt : Routing) (svc : Nat) (t : Int) (s : Str)
+    (th : Option Str) (rs : List Reaction) :
+    let o := runCall cfg rt (.subscribe svc t) (.resp 200 (some s) th :: rs)
+    (∃ g, o.res = .sub s g) ∧ get? o.rt s = some svc := by
+  rcases parse_total th with hk | ⟨n, hk⟩ <;>
+    simp [runCall, doSubscribe, nextReact, subscribeFinish, guards_pinned.1, hk, get?_set_self]
 
 /-- **Once an unsubscribe has been issued its SID is no longer routed, whether or not the device
     confirmed** — for every reaction script (200, error status, unreachable). -/
@@ -107,7 +132,7 @@ theorem subscribe_returns_grant (cfg : Cfg) (rt : Routing) (svc : Nat) (t : Int)
   obtain ⟨g', hg', hp⟩ := inScope_parse th t hsome
   rw [hg] at hg'; cases hg'
   rcases hp with ⟨hk, rfl⟩ | hk <;>
-    simp [runCall, doSubscribe, nextReact, subscribeFinish, hk, get?_set_self]
+    simp [runCall, doSubscribe, nextReact, subscribeFinish, guards_pinned.1, hk, get?_set_self]
 
 /-- … renewal: a 200 returns the (possibly new) SID and the granted timeout; a new SID replaces the old
     one in the routing table. -/
@@ -132,10 +157,10 @@ theorem renewal_returns_grant (cfg : Cfg) (rt : Routing) (tg : Target) (t : Int)
     rw [get?_set_ne _ _ _ _ hne]
     exact get?_erase_self _ _ hn
   rcases hp with ⟨hk, rfl⟩ | hk
-  · simp only [runCall, doResubscribe, hr, nextReact, renewFinish, hk, ne_eq, not_true_eq_false, if_false]
+  · simp only [runCall, doResubscribe, hr, nextReact, renewFinish, guards_pinned.2, hk, ne_eq, not_true_eq_false, if_false]
     refine ⟨trivial, get?_set_self _ _ _, ?_⟩
     intro hne; simp only [hne, not_false_eq_true, if_true]; exact herase hne
-  · simp only [runCall, doResubscribe, hr, nextReact, renewFinish, hk, ne_eq, not_true_eq_false, if_false]
+  · simp only [runCall, doResubscribe, hr, nextReact, renewFinish, guards_pinned.2, hk, ne_eq, not_true_eq_false, if_false]
     refine ⟨trivial, get?_set_self _ _ _, ?_⟩
     intro hne; simp only [hne, not_false_eq_true, if_true]; exact herase hne
 
@@ -162,6 +187,9 @@ def exHist : List (Call × List Reaction) :=
 example : ∀ p ∈ exHist, callWF p.1 := by decide
 /-- the example history is inside the domain at every step and the judge accepts it (evaluated) -/
 example : (modelTrace exCfg [sA, sB, sC] 2 [] exHist).all stepInScope = true := by decide
+/-- a renewal answered with a new SID and `Second-abc`: judged, accepted (old SID gone, new one routed) -/
+example : ok (modelTrace exCfg [sA, sB] 1 [] [(.subscribe 0 1800, [.resp 200 (some sA) none]),
+    (.resubscribe (.sid sA) 1800, [.resp 200 (some sB) (some (secondPrefix ++ ['a','b','c']))])]) = true := by decide
 example : ok (modelTrace exCfg [sA, sB, sC] 2 [] exHist) = true := by decide
 example : ok (modelTraceS exCfg true [sA, sB, sC] 2 [] exHist) = true := by decide
 /-- with a suspending requester renew-all sends both renewals before the fallback SUBSCRIBE -/
